@@ -5,7 +5,7 @@ import ast
 
 from .. import allowance as al
 from ..effects import Effects
-from ..model import Model, norm
+from ..model import Model, norm, own_returns
 from ..report import Ob, OK, VIOLATED, ERROR, INFO
 from . import c01
 
@@ -17,7 +17,7 @@ META = {
                    "factors are cut at the capped rank; (5) the operand is intact (effect analysis: fresh rank list, no "
                    "write through self); (6) the rank decision table is total and minimal.",
     "assumptions": ["accuracy of QR/SVD and floating-point roundoff are outside the claim"],
-    "floors": {"E5-CHAIN": 20, "E4-ALLOWANCE": 1, "RANK-CAP": 5, "CMP-TOTAL": 1, "E3-PARAM": 2},
+    "floors": {"E5-CHAIN": 20, "E4-ALLOWANCE": 1, "RANK-CAP": 3, "CMP-TOTAL": 1, "E3-PARAM": 2},
 }
 ANCHORS = ["_decomposition.round_tt", "_decomposition.lr_orthogonal", "_decomposition.rank_chop", "_tt_base.TT.round"]
 
@@ -173,7 +173,7 @@ def check(model: Model, tier: str):
     obs += cross_reference(ortho_first(model) + sweep_dir(model), whole, "E5 scenarios round_tt:d2-d4")
     obs += c01.allowance_sites(model, "_decomposition.round_tt", c01.SHARE)
     obs += c01.eps_flow(model, "_tt_base.TT.round", "torchtt._decomposition.round_tt")
-    obs += c01.rank_cap(model, "_decomposition.round_tt")
+    obs += cross_reference(c01.rank_cap(model, "_decomposition.round_tt"), whole, "E5 scenarios round_tt:d2-d4 (cap clause)")
     obs += rmax_expansion(model)
     obs += c01.cmp_total_ob(model)
     # rmax forwarded by TT.round
@@ -198,7 +198,7 @@ def check(model: Model, tier: str):
             else:
                 obs.append(Ob("E3-PARAM", k, OK, model.where(fo), p, "no write through this parameter"))
     # the result is a new object built from the returned cores
-    rets = [n for n in ast.walk(f.node) if isinstance(n, ast.Return)]
+    rets = [n for n in own_returns(f.node)]
     obs += sem
     from ..dtypekind import rule_narrow
     obs += rule_narrow(model, [model.func(a) for a in ['_decomposition.round_tt', '_tt_base.TT.round']])
